@@ -124,13 +124,15 @@ func (e *Constant) GetSnapshot() string {
 	buff.WriteString("->")
 	switch e.Value.Kind() {
 	case reflect.String:
-		buff.WriteString(fmt.Sprintf("\"%s\"", e.Value.String()))
+		// length prefix : the text may itself contain quotes and brackets.
+		buff.WriteString(fmt.Sprintf("%d\"%s\"", len(e.Value.String()), e.Value.String()))
 	case reflect.Int, reflect.Int8, reflect.Int16, reflect.Int32, reflect.Int64:
 		buff.WriteString(fmt.Sprintf("%d", e.Value.Int()))
 	case reflect.Uint, reflect.Uint8, reflect.Uint16, reflect.Uint32, reflect.Uint64:
 		buff.WriteString(fmt.Sprintf("%d", e.Value.Uint()))
 	case reflect.Float32, reflect.Float64:
-		buff.WriteString(fmt.Sprintf("%f", e.Value.Float()))
+		// exact bits : %f would merge constants equal to 6 decimals.
+		buff.WriteString(fmt.Sprintf("%016x", math.Float64bits(e.Value.Float())))
 	case reflect.Bool:
 		buff.WriteString(fmt.Sprintf("%v", e.Value.Bool()))
 	}
